@@ -735,9 +735,18 @@ class PItems(PV):
 
 @builtin(setattr)
 def _setattr(ex, st, pos, named, node):
+    h = ex.spec.calls.get('builtin:setattr')
+    if h is not None: return h(ex, st, pos, node)
     # dynamic attribute stores are not part of the heap model: the (two) sites are checked by scan obligations
     ex.spec.note_assumption('setattr with a dynamic name is outside the heap model (sites checked by scan: x_ attributes, resolver)')
     return [(st, P_NONE)]
+
+
+@builtin(getattr)
+def _getattr(ex, st, pos, named, node):
+    h = ex.spec.calls.get('builtin:getattr')
+    if h is not None: return h(ex, st, pos, node)
+    raise Unsupported('getattr with a dynamic name: no contract')
 
 
 @method(PMap, 'get')
